@@ -311,6 +311,7 @@ Definition stmt_text (en : env) (props : list string) (s : stmt) : string :=
   | SSetThe k i v => ("set " ++ render en (pp_tok en (EThe k i)) ++ " = " ++ render en (pp_tok en v))%string
   | SSetAcc n o v => ("set " ++ render en (pp_tok en (EAcc n o)) ++ " = " ++ render en (pp_tok en v))%string
   | SSetMenu pid it mn v => ("set " ++ render en (pp_tok en (EMenu pid it mn)) ++ " = " ++ render en (pp_tok en v))%string
+  | SExit => "exit"%string
   end.
 
 Definition leaf_like (k : lclass) (n : node) : Prop := match n with Leaf k' _ _ _ => k' = k | _ => False end.
@@ -330,6 +331,7 @@ Definition text_ok_s (en : env) (props : list string) (s : stmt) : Prop :=
   | SSetThe k i v => text_ok en (EThe k i) /\ starts_with "field(" (render en (pp_tok en (EThe k i))) = false /\ text_ok en v
   | SSetAcc n o v => text_ok en (EAcc n o) /\ text_ok en v
   | SSetMenu pid it mn v => text_ok en (EMenu pid it mn) /\ text_ok en v
+  | SExit => True
   end.
 
 Lemma args_text en l : text_ok_args en l -> forall pc ind,
@@ -353,7 +355,7 @@ Theorem stmt_line en props s : text_ok_s en props s -> forall pc ind,
   gen_lingo (reify_s en props pc s) ind = (indent ind ++ stmt_text en props s ++ "
 ")%string.
 Proof.
-  destruct s as [t e|f args|f args|fam pid o v|tk ti tv|an ao av|mp mi mm mv]; intros Hok pc ind; [| | | | | |].
+  destruct s as [t e|f args|f args|fam pid o v|tk ti tv|an ao av|mp mi mm mv|]; intros Hok pc ind; [| | | | | | |reflexivity].
   7:{ destruct Hok as (Hk & Hv). cbn [reify_s stmt_text].
       pose proof (gen_lingo_is_render en (EMenu mp mi mm) Hk pc ind) as Hl. cbn [reify_e] in Hl.
       erewrite assign_line; [reflexivity | | apply (gen_lingo_is_render en mv Hv) | ].
